@@ -16,7 +16,7 @@ RULE = ("one simulated history (Unicode payloads incl. astral characters, quotes
         "child without values, a non-ASCII payload and non-empty transient state at stop; distinct = distinct final model states")
 TIERS = {
     "quick": {"runs": 2000, "max_wall": 240, "minimise_s": 25, "chunk": 50},
-    "thorough": {"runs": 80000, "max_wall": 3000, "minimise_s": 60, "chunk": 200},
+    "thorough": {"runs": 50000, "max_wall": 3000, "minimise_s": 60, "chunk": 200},
 }
 FAULT_KINDS = ["clean stop/restart x2", "format pickle vs json (differential pair)"]
 REAL, STUBS, ASSUMPTIONS = netcheck.REAL, netcheck.STUBS, netcheck.ASSUMPTIONS
